@@ -41,8 +41,12 @@ def load_known(prop):
 
 
 def match_known(known, key):
+    """exact match, or glob match where only '*' is a wildcard (keys contain literal brackets)"""
     for f in known:
-        if f.get("status") == "known" and fnmatch.fnmatchcase(key, f["key"]):
+        if f.get("status") != "known":
+            continue
+        pat = f["key"].replace("[", "[[]").replace("?", "[?]")
+        if key == f["key"] or fnmatch.fnmatchcase(key, pat):
             return f
     return None
 
